@@ -70,6 +70,7 @@ type verifFrameSpec struct {
 	typ   int    // 1 stdout, 2 stderr, 3 systemerr
 	tsIdx int    // index into verifTimestamps
 	space bool   // payload has the separating space
+	empty bool   // payload of size 0
 	msg   string // symbolic bytes
 	x     [3]byte
 }
@@ -86,7 +87,10 @@ var verifTimestamps = []struct {
 
 func verifFrameBytes(f verifFrameSpec) []byte {
 	payload := []byte(verifTimestamps[f.tsIdx].text)
-	if f.space {
+	if f.empty {
+		payload = nil
+	}
+	if f.space && !f.empty {
 		payload = append(payload, ' ')
 		payload = append(payload, f.msg...)
 	}
@@ -113,13 +117,18 @@ func verifC03Stream(R, maxMsg int, withSplit bool, faults bool) {
 		f := verifFrameSpec{typ: 1 + vsymChoice("type", 2), space: true}
 		f.tsIdx = vsymChoice("ts", 3)
 		if faults {
-			switch vsymChoice("corrupt", 4) {
+			switch vsymChoice("corrupt", 6) {
 			case 1:
 				f.typ = 3
 			case 2:
 				f.tsIdx = 3
 			case 3:
 				f.space = false
+			case 4:
+				f.empty = true // a frame of size 0: no timestamp at all
+			case 5:
+				f.typ = 3
+				f.empty = true // a daemon error frame without text
 			}
 		}
 		f.x = [3]byte{vsymByte("pad"), vsymByte("pad"), vsymByte("pad")}
@@ -172,7 +181,7 @@ func verifC03Stream(R, maxMsg int, withSplit bool, faults bool) {
 			goto done
 		}
 		f := frames[k]
-		if f.typ == 3 || !f.space || !verifTimestamps[f.tsIdx].ok {
+		if f.typ == 3 || !f.space || f.empty || !verifTimestamps[f.tsIdx].ok {
 			wantErr = true
 			goto done
 		}
